@@ -100,8 +100,11 @@ class LDMMaintenance:
         data_object : dict
         """
         try:
+            data_container = self.data_containers.get(index=data_object_id)
+            if data_container is None:
+                raise KeyError(data_object_id)
             self.data_containers.update(
-                data_object,
+                {**data_container, "dataObject": data_object},
                 index=data_object_id,
             )
             self.logging.debug("Data container updated: %s", data_object_id)
